@@ -3,11 +3,19 @@ import TapkeeVerif.Model.Knn
 import TapkeeVerif.Model.VpTree
 import TapkeeVerif.Model.KnnIO
 import TapkeeVerif.Model.CoverTree
+import TapkeeVerif.Model.CoverBuild
 /-! Line-protocol driver for the neighbour-search models (C02, DESIGN §11).
 
 in : `knn method=brute|vptree|covertree k=3 cb=plain|kernel metric=L1|Linf|matrix pts=..|m=.. [kern=lin|matrix km=..]
-      [vs=..] [ids=<lists returned by the implementation>] [raw=<cover-tree candidate sets>] [brief=1]`
-out: `model=<obs;..> alt=<i,..> [impl=<obs;..> oracle=ok|bad@i:reason corr=ok|diff@i] [wrap=ok|diff@i|oob@i cq=ok|bad@i]`
+      [vs=..] [ids=<lists returned by the implementation>] [raw=<cover-tree candidate sets>] [brief=1]
+      [tree=<preorder dump of the real cover tree> gs=<d/get_scale(d),..> ds=<s/dist_of_scale(s),..>]`
+out: `model=<obs;..> alt=<i,..> [impl=<obs;..> oracle=ok|bad@i:reason corr=ok|diff@i] [wrap=ok|diff@i|oob@i cq=ok|bad@i]
+      [wf=.. mq=.. mqorder=.. nodes=.. leafscale=..] [bt=ok|diff@r:..|err bh=ok|neg|top bls=ok|diff]`
+
+`bt` : the tree the Lean model of `batch_create` (`CoverBuild.batchCreate`, run over `Rat` with the scale functions given
+by the `gs` / `ds` tables of the values the real code computes) builds, compared record by record (point, scale, number
+of children, max_dist, parent_dist, preorder = children order) with the dumped real tree; `bh` : the hypotheses of
+`batchCreate_wf` on these scale values (`dist_of_scale >= 0`, largest top distance covered); `bls` : `leaf_scale`.
 
 `obs` of one neighbour list `l` of sample `i` = `len:nodup:selfFree:inRange:sorted distances` — the level at which
 property C02 determines the result.  The oracle is `Knn.isExactKnn` (the Bool form of the `IsExactKnn` the theorems
@@ -104,9 +112,76 @@ partial def firstLeafScale : CNode Int → Nat
   | .mk _ _ _ s [] => s
   | .mk _ _ _ _ (c :: _) => firstLeafScale c
 
+/-! ### the model of `batch_create` against the real tree -/
+
+def parsePair (s : String) : Option (String × String) :=
+  match s.splitOn "/" with
+  | [a, b] => some (a, b)
+  | _ => none
+
+/-- `gs=<d>/<scale>,..` -/
+def parseGs (s : String) : Option (List (Rat × Int)) :=
+  allSome ((splitNonEmpty s ",").map fun t => do
+    let (a, b) ← parsePair t
+    pure (← parseRat a, ← b.toInt?))
+
+/-- `ds=<scale>/<value>,..` -/
+def parseDs (s : String) : Option (List (Int × Rat)) :=
+  allSome ((splitNonEmpty s ",").map fun t => do
+    let (a, b) ← parsePair t
+    pure (← a.toInt?, ← parseRat b))
+
+/-- the scale functions as the tables of the values the real code computes; an argument outside the tables gives a
+    value no real run produces (the model's tree then differs from the real one: reported as `bt=diff`) -/
+def gsOf (tab : Array (Rat × Int)) (d : Rat) : Int :=
+  match tab.find? (fun e => e.1 == d) with
+  | some e => e.2
+  | none => 1000000007
+
+def dsOf (tab : Array (Int × Rat)) (s : Int) : Rat :=
+  match tab[0]? with
+  | none => -1
+  | some (s0, _) =>
+    if s < s0 then -1 else
+      match tab[(s - s0).toNat]? with
+      | some (s', v) => if s' = s then v else -1
+      | none => -1
+
+partial def flatten : CNode Rat → List (Nat × Nat × Nat × Rat × Rat)
+  | .mk p m d s cs => (p, s, cs.length, m, d) :: (cs.map flatten).flatten
+
+def showRec (r : Nat × Nat × Nat × Rat × Rat) : String :=
+  s!"{r.1}/{r.2.1}/{r.2.2.1}/{showRat r.2.2.2.1}/{showRat r.2.2.2.2}"
+
+/-- `bt=.. bh=.. bls=..` -/
+def buildReport (sp : Space) (recs : List Rec) (leafScale : Nat) (gsS dsS : String) : String :=
+  match parseGs gsS, parseDs dsS with
+  | some gs, some ds =>
+    let gsA := gs.toArray
+    let dsA := ds.toArray
+    let δ : Nat → Nat → Rat := fun a b => (sp.dist a b : Rat)
+    let pts := List.range sp.N
+    let bh := if !(ds.all fun e => decide (0 ≤ e.2)) then "neg"
+      else if !(CoverBuild.topCovered δ (gsOf gsA) (dsOf dsA) pts) then "top" else "ok"
+    match CoverBuild.batchCreate δ (gsOf gsA) (dsOf dsA) 1000000 pts with
+    | none => s!"bt=err bh={bh}"
+    | some (t, ls) =>
+      let mine := flatten t
+      let real : List (Nat × Nat × Nat × Rat × Rat) :=
+        recs.map fun r => (r.p, r.scale, r.nch, (r.maxDist : Rat), (r.parentDist : Rat))
+      let bt :=
+        if mine == real then "ok"
+        else
+          match ((mine.zip real).zipIdx.find? fun (ab, _) => ab.1 != ab.2) with
+          | some ((a, _), i) => s!"diff@{i}:{showRec a}"
+          | none => s!"diff@len:{mine.length}"
+      s!"bt={bt} bh={bh} bls={if ls == leafScale then "ok" else s!"diff:{ls}"}"
+  | _, _ => "bt=unparsed"
+
 /-- `wf=..  mq=..  mqorder=..` : well-formedness certificate of the real tree, the model query run on it compared
     with the real candidate sets (as sets; identical order is a fidelity diagnostic only) -/
-def treeReport (sp : Space) (k : Nat) (treeS : String) (raw : List (List Nat)) : String :=
+def treeReport (sp : Space) (k : Nat) (treeS : String) (raw : List (List Nat)) (gsds : Option (String × String)) :
+    String :=
   match allSome ((splitNonEmpty treeS ",").map parseRec) with
   | none => "wf=unparsed"
   | some recs =>
@@ -114,15 +189,18 @@ def treeReport (sp : Space) (k : Nat) (treeS : String) (raw : List (List Nat)) :
     | some (top, []) =>
       let wf := wfTree sp.dist sp.N top
       let leafScale := firstLeafScale top
+      let br := match gsds with
+        | some (g, d) => " " ++ buildReport sp recs leafScale g d
+        | none => ""
       match batchQuery sp.dist id (k + 1) leafScale top with
-      | none => s!"wf={b2s wf} mq=fuel"
+      | none => s!"wf={b2s wf} mq=fuel{br}"
       | some res =>
         let sameSets := res.length == raw.length && (res.zip raw).all fun (a, b) =>
           a.head? == b.head? && a.tail.mergeSort == b.tail.mergeSort
         let sameOrder := res == raw
         let firstDiff := ((res.zip raw).find? fun (a, b) => !(a.head? == b.head? && a.tail.mergeSort == b.tail.mergeSort)).map
           fun (a, _) => toString (a.headD 0)
-        s!"wf={b2s wf} mq={if sameSets then "ok" else "diff@q" ++ firstDiff.getD "?"} mqorder={if sameOrder then "same" else "diff"} nodes={recs.length} leafscale={leafScale}"
+        s!"wf={b2s wf} mq={if sameSets then "ok" else "diff@q" ++ firstDiff.getD "?"} mqorder={if sameOrder then "same" else "diff"} nodes={recs.length} leafscale={leafScale}{br}"
     | _ => "wf=unparsed-tree"
 
 def answer (line : String) : String :=
@@ -156,7 +234,11 @@ def answer (line : String) : String :=
         let oracle := firstBad ids fun i l => if isExactKnn sp.dist pts k i l then none else some (reason sp k i l)
         let ties := (byQuery.filter fun (_, c) => c.length > k + 1).length
         let tr := match field? fs "tree" with
-          | some t => " " ++ treeReport sp k t raw
+          | some t =>
+            let gsds := match field? fs "gs", field? fs "ds" with
+              | some g, some d => some (g, d)
+              | _, _ => none
+            " " ++ treeReport sp k t raw gsds
           | none => ""
         s!"model={showObs mlists} alt= impl={showObs ids} oracle={oracle} corr={wrap} wrap={wrap} cq={cq} queries={cover} ties={ties}{tr}"
       | _, _ => "model=- alt= no-impl"
